@@ -98,6 +98,7 @@ static void choose_form(Rng &rng, Access &a, const MVar &v, const GenParams &gp,
             std::vector<long long> s = a.start, ct = a.count; s[d] += off; ct[d] = len; off += len;
             a.nstart.push_back(s); a.ncount.push_back(ct);
         }
+        if (parts > 1 && rng.chance(0.4)) { std::reverse(a.nstart.begin(), a.nstart.end()); std::reverse(a.ncount.begin(), a.ncount.end()); }   // sub-requests need not be listed in increasing file order (the highest record may be named first)
         if (rng.chance(0.2)) { std::vector<long long> z(nd, 0), zs = a.start; if (v.isrec && !is_read && rng.chance(0.5)) zs[0] = a.start[0] + a.count[0] + (long long)rng.below(4); a.nstart.push_back(zs); a.ncount.push_back(z); }   // a zero-length sub-request (for writes to record variables possibly beyond every record written: it must not count)
     }
     if (form == F_VARD) { a.flexible = true; if (a.bufkind == 4 || a.bufkind == 1) a.bufkind = 0; }
